@@ -71,8 +71,7 @@ func truncate(s *slip.Scope, f slip.Object, args slip.List, depth int) slip.Valu
 	checkDivisor(s, depth, f, args, div)
 	switch tn := num.(type) {
 	case slip.Fixnum:
-		q = tn / div.(slip.Fixnum)
-		r = tn - q.(slip.Fixnum)*div.(slip.Fixnum)
+		q, r = divideFixnums(tn, div.(slip.Fixnum))
 	case slip.SingleFloat:
 		q = tn / div.(slip.SingleFloat)
 		q = slip.Fixnum(math.Trunc(float64(q.(slip.SingleFloat))))
